@@ -59,9 +59,17 @@ type upCert struct {
 	Expired bool       `json:"expired"`
 }
 
+// updCase is a runtime update of one field of the context at Pos (0: the cluster tls config of an upstream case).
+type updCase struct {
+	Pos   int             `json:"pos"`
+	Field string          `json:"field"`
+	Val   json.RawMessage `json:"val"`
+}
+
 type tcase struct {
 	Side  string     `json:"side"`
 	Ctxs  []ctxCase  `json:"ctxs"`
+	Upds  []updCase  `json:"upds"`
 	Insp  bool       `json:"insp"`
 	First string     `json:"first"`
 	Hello *helloCase `json:"hello"`
@@ -116,7 +124,11 @@ func (m *sdsMock) AckResponse(resp interface{}) {}
 type group struct {
 	idx    int
 	ctxs   []ctxCase
-	insp   bool
+	upds   []updCase
+	// variant decides how ready contexts are backed: "seed" (seeded mix), "static", "sds".
+	// A group with an update history is run as "static" and as "sds", so that every update path is taken under every seed.
+	variant string
+	insp    bool
 	hellos []tcase
 	events []vh.Ev
 }
@@ -259,36 +271,64 @@ func short(e error) string {
 
 type pendingSecret struct{ val, cert, caPEM, certPEM, keyPEM string }
 
-// tlsContexts turns the abstract contexts of a group into listener TLS configs. A ready context is static or
-// SDS backed (seeded choice, its secret arrives after the listener exists); a not-ready one is SDS without secret.
-func (g *group) tlsContexts(p *pki, rng *rand.Rand) (lname string, tlsCfgs []v2.TLSConfig, jctx []vh.Ev, later []pendingSecret) {
-	lname = fmt.Sprintf("g%d", g.idx)
-	jctx = make([]vh.Ev, len(g.ctxs))
+// liveGroup is a group while it runs: the current abstract contexts (after the updates applied so far).
+type liveGroup struct {
+	g     *group
+	p     *pki
+	mock  *sdsMock
+	lname string
+	cur   []ctxCase
+	kinds []string
+}
+
+func newLive(g *group, p *pki, mock *sdsMock) *liveGroup {
+	lg := &liveGroup{g: g, p: p, mock: mock, lname: fmt.Sprintf("g%d", g.idx), kinds: make([]string, len(g.ctxs))}
+	lg.cur = append(lg.cur, g.ctxs...)
+	rng := rand.New(rand.NewSource(vh.Seed()*1000003 + int64(g.idx)))
 	for i, c := range g.ctxs {
+		switch {
+		case !c.Ready:
+			lg.kinds[i] = "sds-pending"
+		case g.variant == "sds" || (g.variant == "seed" && rng.Intn(3) == 0):
+			lg.kinds[i] = "sds-ready"
+		default:
+			lg.kinds[i] = "static"
+		}
+	}
+	return lg
+}
+
+func sortedNames(nn [][]string) []string {
+	names := make([]string, len(nn))
+	for k, n := range nn {
+		names[k] = dotted(n)
+	}
+	sort.Strings(names)
+	return names
+}
+
+func (lg *liveGroup) sdsNames(pos int) (val, cert string) {
+	return fmt.Sprintf("val-%s-%d", lg.lname, pos), fmt.Sprintf("cert-%s-%d", lg.lname, pos)
+}
+
+// tlsContexts turns the current abstract contexts into listener TLS configs. A ready context is static or SDS backed
+// (its secrets arrive after the listener exists: `secrets`); a not-ready one is SDS without secret.
+func (lg *liveGroup) tlsContexts() (tlsCfgs []v2.TLSConfig, jctx []vh.Ev, secrets []pendingSecret) {
+	jctx = make([]vh.Ev, len(lg.cur))
+	for i, c := range lg.cur {
 		pos := i + 1
-		names := make([]string, len(c.Names))
-		for k, n := range c.Names {
-			names[k] = dotted(n)
-		}
-		sort.Strings(names)
-		certPEM, keyPEM, layout := p.serverLeaf(pos, names)
+		certPEM, keyPEM, layout := lg.p.serverLeaf(pos, sortedNames(c.Names))
 		cfg := v2.TLSConfig{Status: true, ServerName: dotted(c.Sn), VerifyClient: c.Verify, RequireClientCert: c.Require,
-			ALPN: strings.Join(c.Alpn, ","), CACert: p.caPEM(c.Ca)}
-		kind := "static"
-		if !c.Ready {
-			kind = "sds-pending"
-		} else if rng.Intn(3) == 0 {
-			kind = "sds-ready"
-		}
-		if kind == "static" {
+			ALPN: strings.Join(c.Alpn, ","), CACert: lg.p.caPEM(c.Ca)}
+		if lg.kinds[i] == "static" {
 			cfg.CertChain, cfg.PrivateKey = certPEM, keyPEM
 		} else {
-			val, cert := fmt.Sprintf("val-%s-%d", lname, pos), fmt.Sprintf("cert-%s-%d", lname, pos)
+			val, cert := lg.sdsNames(pos)
 			cfg.CACert = ""
 			cfg.SdsConfig = &v2.SdsConfig{CertificateConfig: &v2.SecretConfigWrapper{Name: cert},
 				ValidationConfig: &v2.SecretConfigWrapper{Name: val}}
-			if kind == "sds-ready" {
-				later = append(later, pendingSecret{val, cert, p.caPEM(c.Ca), certPEM, keyPEM})
+			if lg.kinds[i] == "sds-ready" {
+				secrets = append(secrets, pendingSecret{val, cert, lg.p.caPEM(c.Ca), certPEM, keyPEM})
 			}
 		}
 		tlsCfgs = append(tlsCfgs, cfg)
@@ -297,9 +337,69 @@ func (g *group) tlsContexts(p *pki, rng *rand.Rand) (lname string, tlsCfgs []v2.
 			nn = [][]string{}
 		}
 		jctx[i] = vh.Ev{"names": nn, "sn": nonNil(c.Sn), "alpn": nonNil(c.Alpn), "ready": c.Ready, "verify": c.Verify,
-			"require": c.Require, "ca": c.Ca, "kind": kind, "layout": layout}
+			"require": c.Require, "ca": c.Ca, "kind": lg.kinds[i], "layout": layout}
 	}
 	return
+}
+
+func (lg *liveGroup) listener() *v2.Listener {
+	tlsCfgs, _, _ := lg.tlsContexts()
+	lc := &v2.Listener{}
+	lc.Name = lg.lname
+	lc.Inspector = lg.g.insp
+	lc.FilterChains = []v2.FilterChain{{TLSContexts: tlsCfgs}}
+	return lc
+}
+
+// apply pushes one update into the running objects. An SDS backed context receives a new validation CA / leaf
+// certificate as a secret push on the running provider; everything else is a TLS config update of the listener
+// (reconfigure: called with the new context list), which re-configures SDS providers in place.
+func (lg *liveGroup) apply(u updCase, reconfigure func() error) (vh.Ev, error) {
+	i := u.Pos - 1
+	if i < 0 || i >= len(lg.cur) {
+		return nil, fmt.Errorf("update position %d out of range", u.Pos)
+	}
+	c := lg.cur[i]
+	var err error
+	switch u.Field {
+	case "ca":
+		err = json.Unmarshal(u.Val, &c.Ca)
+	case "names":
+		c.Names = nil
+		err = json.Unmarshal(u.Val, &c.Names)
+	case "sn":
+		c.Sn = nil
+		err = json.Unmarshal(u.Val, &c.Sn)
+	case "alpn":
+		c.Alpn = nil
+		err = json.Unmarshal(u.Val, &c.Alpn)
+	case "verify":
+		err = json.Unmarshal(u.Val, &c.Verify)
+	case "require":
+		err = json.Unmarshal(u.Val, &c.Require)
+	default:
+		err = fmt.Errorf("unknown update field %q", u.Field)
+	}
+	if err != nil {
+		return nil, err
+	}
+	lg.cur[i] = c
+	path := "config-update"
+	val, cert := lg.sdsNames(u.Pos)
+	switch {
+	case lg.kinds[i] == "sds-ready" && u.Field == "ca":
+		path = "sds-push"
+		lg.mock.SetSecret(val, &types.SdsSecret{Name: val, ValidationPEM: lg.p.caPEM(c.Ca)})
+	case lg.kinds[i] == "sds-ready" && u.Field == "names":
+		path = "sds-push"
+		certPEM, keyPEM, _ := lg.p.serverLeaf(u.Pos, sortedNames(c.Names))
+		lg.mock.SetSecret(cert, &types.SdsSecret{Name: cert, CertificatePEM: certPEM, PrivateKeyPEM: keyPEM})
+	default:
+		err = reconfigure()
+	}
+	var v interface{}
+	json.Unmarshal(u.Val, &v)
+	return vh.Ev{"ev": "upd", "pos": u.Pos, "field": u.Field, "val": v, "path": path, "kind": lg.kinds[i]}, err
 }
 
 func deliver(mock *sdsMock, later []pendingSecret) {
@@ -309,29 +409,34 @@ func deliver(mock *sdsMock, later []pendingSecret) {
 	}
 }
 
-func groupRng(g *group) *rand.Rand { return rand.New(rand.NewSource(vh.Seed()*1000003 + int64(g.idx))) }
-
 func (w *worker) runGroup(g *group, mock *sdsMock) error {
-	lname, tlsCfgs, jctx, later := g.tlsContexts(w.pki, groupRng(g))
-	lc := &v2.Listener{}
-	lc.Name = lname
-	lc.Inspector = g.insp
-	lc.FilterChains = []v2.FilterChain{{TLSContexts: tlsCfgs}}
-	mng, err := mtls.NewTLSServerContextManager(lc)
+	lg := newLive(g, w.pki, mock)
+	_, jctx, secrets := lg.tlsContexts()
+	mng, err := mtls.NewTLSServerContextManager(lg.listener())
 	if err != nil {
 		return fmt.Errorf("NewTLSServerContextManager: %v", err)
 	}
 	// the secrets of the ready SDS contexts arrive after the listener was built
-	deliver(mock, later)
-	return w.hellos(g, mng, "", jctx)
+	deliver(mock, secrets)
+	g.events = append(g.events, vh.Ev{"ev": "mgr", "ctxs": jctx, "insp": g.insp, "g": g.idx, "via": "direct", "variant": g.variant})
+	for _, u := range g.upds {
+		ev, err := lg.apply(u, func() error {
+			// what server/handler.go does on a listener update: a new manager from the updated config, same listener name
+			m, err := mtls.NewTLSServerContextManager(lg.listener())
+			if err == nil {
+				mng = m
+			}
+			return err
+		})
+		if err != nil {
+			return fmt.Errorf("group %d update %+v: %v", g.idx, u, err)
+		}
+		g.events = append(g.events, ev)
+	}
+	return w.hellos(g, mng, "")
 }
 
-func (w *worker) hellos(g *group, mng types.TLSContextManager, addr string, jctx []vh.Ev) error {
-	via := "direct"
-	if mng == nil {
-		via = "e2e"
-	}
-	g.events = append(g.events, vh.Ev{"ev": "mgr", "ctxs": jctx, "insp": g.insp, "g": g.idx, "via": via})
+func (w *worker) hellos(g *group, mng types.TLSContextManager, addr string) error {
 	for _, tc := range g.hellos {
 		var ev vh.Ev
 		var err error
@@ -351,7 +456,67 @@ func (w *worker) hellos(g *group, mng types.TLSContextManager, addr string, jctx
 
 // ---------------------------------------------------------------- upstream side
 
-func runUp(p *pki, tc tcase) (vh.Ev, error) {
+// upManager builds the real clientContextManager of an upstream case and pushes the case's update history into it.
+// variant "static": certificate material in the config, every update builds a new manager from the new config
+// (what a cluster update does). variant "sds": SDS backed client context; a CA rotation is a secret push on the
+// running provider, the other fields a config update of the same provider (same cluster name).
+func upManager(p *pki, mock *sdsMock, tc tcase, variant string, idx, attempt int) (types.TLSClientContextManager, []vh.Ev, error) {
+	cur := *tc.Cfg
+	name := fmt.Sprintf("up%d-%s-%d", idx, variant, attempt)
+	val, cert := "val-"+name, "cert-"+name
+	mk := func() (types.TLSClientContextManager, error) {
+		cfg := &v2.TLSConfig{Status: true, ServerName: dotted(cur.Sn), InsecureSkip: cur.Skip}
+		if variant == "sds" {
+			cfg.SdsConfig = &v2.SdsConfig{CertificateConfig: &v2.SecretConfigWrapper{Name: cert},
+				ValidationConfig: &v2.SecretConfigWrapper{Name: val}}
+		} else {
+			cfg.CACert = p.caPEM(cur.Ca)
+		}
+		return mtls.NewTLSClientContextManager(name, cfg)
+	}
+	mng, err := mk()
+	if err != nil {
+		return nil, nil, err
+	}
+	if variant == "sds" {
+		certPEM, keyPEM, _ := p.serverLeaf(0, []string{"mosn-client"})
+		deliver(mock, []pendingSecret{{val, cert, p.caPEM(cur.Ca), certPEM, keyPEM}})
+	}
+	var upds []vh.Ev
+	for _, u := range tc.Upds {
+		path := "config-update"
+		var err error
+		switch u.Field {
+		case "ca":
+			err = json.Unmarshal(u.Val, &cur.Ca)
+		case "sn":
+			cur.Sn = nil
+			err = json.Unmarshal(u.Val, &cur.Sn)
+		case "skip":
+			err = json.Unmarshal(u.Val, &cur.Skip)
+		default:
+			err = fmt.Errorf("unknown upstream update field %q", u.Field)
+		}
+		if err != nil {
+			return nil, nil, err
+		}
+		if variant == "sds" && u.Field == "ca" {
+			path = "sds-push"
+			mock.SetSecret(val, &types.SdsSecret{Name: val, ValidationPEM: p.caPEM(cur.Ca)})
+		} else if mng, err = mk(); err != nil {
+			return nil, nil, err
+		}
+		var v interface{}
+		json.Unmarshal(u.Val, &v)
+		upds = append(upds, vh.Ev{"pos": 0, "field": u.Field, "val": v, "path": path})
+	}
+	if upds == nil {
+		upds = []vh.Ev{}
+	}
+	return mng, upds, nil
+}
+
+func runUp(p *pki, mock *sdsMock, tc tcase, variant string, idx, attempt int) (vh.Ev, error) {
 	names := make([]string, len(tc.Cert.Names))
 	for i, n := range tc.Cert.Names {
 		names[i] = dotted(n)
@@ -382,8 +547,7 @@ func runUp(p *pki, tc tcase) (vh.Ev, error) {
 		s.Read(one)
 		done <- nil
 	}()
-	cfg := &v2.TLSConfig{Status: true, ServerName: dotted(tc.Cfg.Sn), InsecureSkip: tc.Cfg.Skip, CACert: p.caPEM(tc.Cfg.Ca)}
-	mng, err := mtls.NewTLSClientContextManager("up", cfg)
+	mng, upds, err := upManager(p, mock, tc, variant, idx, attempt)
 	if err != nil {
 		return nil, fmt.Errorf("NewTLSClientContextManager: %v", err)
 	}
@@ -393,7 +557,7 @@ func runUp(p *pki, tc tcase) (vh.Ev, error) {
 	}
 	defer raw.Close()
 	nn := tc.Cert.Names
-	ev := vh.Ev{"ev": "up", "upplain": false, "cfg": vh.Ev{"sn": nonNil(tc.Cfg.Sn), "skip": tc.Cfg.Skip, "ca": tc.Cfg.Ca},
+	ev := vh.Ev{"ev": "up", "upplain": false, "upds": upds, "variant": variant, "cfg": vh.Ev{"sn": nonNil(tc.Cfg.Sn), "skip": tc.Cfg.Skip, "ca": tc.Cfg.Ca},
 		"cert": vh.Ev{"names": nn, "ca": tc.Cert.Ca, "expired": tc.Cert.Expired}, "ok": false}
 	c, cerr := mng.Conn(raw)
 	if cerr == nil {
@@ -457,14 +621,20 @@ func main() {
 			ups = append(ups, tc)
 			return nil
 		}
-		kb, _ := json.Marshal([]interface{}{tc.Ctxs, tc.Insp})
-		g := groups[string(kb)]
-		if g == nil {
-			g = &group{idx: len(order), ctxs: tc.Ctxs, insp: tc.Insp}
-			groups[string(kb)] = g
-			order = append(order, g)
+		kb, _ := json.Marshal([]interface{}{tc.Ctxs, tc.Insp, tc.Upds})
+		variants := []string{"seed"}
+		if len(tc.Upds) > 0 {
+			variants = []string{"static", "sds"}
 		}
-		g.hellos = append(g.hellos, tc)
+		for _, v := range variants {
+			g := groups[string(kb)+v]
+			if g == nil {
+				g = &group{idx: len(order), ctxs: tc.Ctxs, upds: tc.Upds, variant: v, insp: tc.Insp}
+				groups[string(kb)+v] = g
+				order = append(order, g)
+			}
+			g.hellos = append(g.hellos, tc)
+		}
 		return nil
 	})
 	vh.Must(err, "read cases")
@@ -511,18 +681,28 @@ func main() {
 		}
 		nh += len(g.hellos)
 	}
-	for _, tc := range ups {
-		var ev vh.Ev
-		var err error
-		for attempt := 0; attempt < 3; attempt++ {
-			ev, err = runUp(p, tc)
-			if err == nil {
-				break
-			}
+	nu := 0
+	for i, tc := range ups {
+		variants := []string{"static"}
+		if len(tc.Upds) > 0 {
+			variants = []string{"static", "sds"}
+		} else if (vh.Seed()+int64(i))%3 == 0 {
+			variants = []string{"sds"}
 		}
-		vh.Must(err, "upstream case")
-		tr.Emit(ev)
+		for _, variant := range variants {
+			var ev vh.Ev
+			var err error
+			for attempt := 0; attempt < 3; attempt++ {
+				ev, err = runUp(p, mock, tc, variant, i, attempt)
+				if err == nil {
+					break
+				}
+			}
+			vh.Must(err, "upstream case")
+			tr.Emit(ev)
+			nu++
+		}
 	}
 	tr.Close()
-	fmt.Fprintf(os.Stdout, "groups=%d handshakes=%d upstream=%d events=%d\n", len(order), nh, len(ups), tr.Len())
+	fmt.Fprintf(os.Stdout, "groups=%d handshakes=%d upstream=%d events=%d\n", len(order), nh, nu, tr.Len())
 }
